@@ -22,8 +22,10 @@
 #include "hep/mc/multi_channel_result.hpp"
 
 #include <algorithm>
+#include <cmath>
 #include <cstddef>
 #include <iterator>
+#include <limits>
 #include <vector>
 
 namespace hep
@@ -56,7 +58,13 @@ public:
         });
 
         std::transform(weights_.begin(), weights_.end(), calls_.begin(), [&](T weight) {
-            return static_cast <std::size_t> (result.calls() * weight);
+            // weights are not numbers after sums have overflowed; converting such a value to an
+            // integer is undefined
+            T const expected = result.calls() * weight;
+            T const limit = std::ldexp(T(1.0), std::numeric_limits<std::size_t>::digits);
+
+            return ((expected >= T()) && (expected < limit)) ? static_cast <std::size_t> (expected)
+                : std::size_t();
         });
 
         minimal_weight_count_ = std::distance(calls_.begin(),
